@@ -310,7 +310,68 @@ def _d(s):
     return hashlib.sha256(s.encode("utf-8", "surrogatepass")).hexdigest()[:20]
 
 
+def saved_files_main():
+    """Child side of the environment battery: files written by save_html(), as bytes."""
+    import locale
+    import shutil
+    import tempfile
+    from ..loader import ht
+
+    d = tempfile.mkdtemp(prefix="hv-c18-")
+    res = {"preferred_encoding": locale.getpreferredencoding(False)}
+    dep = ht.HTMLDependency("d\u00e9p", "1.0", source={"href": "https://cdn.example/\u00fc"}, script={"src": "s.js"}, meta={"name": "m", "content": "caf\u00e9"})
+    items = {
+        "ascii_tag": lambda: ht.div("plain ascii", ht.span("x"), title="t"),
+        "latin1_tag": lambda: ht.div("caf\u00e9 \u00fc\u00df", title="\u00e9"),
+        "bmp_list": lambda: ht.TagList(ht.p("\u4e2d\u6587 \u0416 \u2028 \u00a0"), "e\u0301"),
+        "astral_document": lambda: ht.HTMLDocument(ht.div("\U0001f600 \U0010ffff", dep, ht.head_content(ht.tags.title("t\u00eftre"))), lang="fr"),
+        "windows_1252_gap": lambda: ht.div("\u0081 \u0152 \u20ac"),
+    }
+    try:
+        for k, mk in items.items():
+            f = os.path.join(d, k + ".html")
+            try:
+                ret = mk().save_html(f)
+                with open(f, "rb") as fh:
+                    data = fh.read()
+                res[k] = {"sha": hashlib.sha256(data).hexdigest()[:20], "utf8": _is_utf8(data), "returned_path": ret == f}
+            except Exception as e:
+                res[k] = {"raised": type(e).__name__ + ": " + str(e)[:60]}
+    finally:
+        shutil.rmtree(d, ignore_errors=True)
+    json.dump(res, sys.stdout)
+
+
+def _is_utf8(data):
+    try:
+        data.decode("utf-8")
+        return True
+    except UnicodeDecodeError:
+        return False
+
+
+# environments in which the interpreter's default text encoding differs (what open() uses when none is given)
+ENVIRONMENTS = [
+    ("utf-8 locale", {"LC_ALL": "C.UTF-8", "LANG": "C.UTF-8"}),
+    ("C locale, no coercion (ASCII)", {"LC_ALL": "C", "LANG": "C", "PYTHONCOERCECLOCALE": "0", "PYTHONUTF8": "0"}),
+    ("POSIX locale, no coercion, latin-1 stdio", {"LC_ALL": "POSIX", "LANG": "POSIX", "PYTHONCOERCECLOCALE": "0", "PYTHONUTF8": "0", "PYTHONIOENCODING": "latin-1"}),
+    ("UTF-8 mode forced", {"LC_ALL": "C", "PYTHONUTF8": "1"}),
+    ("C locale, coerced", {"LC_ALL": "C", "LANG": "C"}),
+]
+
+
+def spawn_saved(extra_env, timeout=600):
+    env = {k: v for k, v in os.environ.items() if k not in ("LC_ALL", "LANG", "LC_CTYPE", "PYTHONUTF8", "PYTHONCOERCECLOCALE", "PYTHONIOENCODING")}
+    env.update(extra_env, PYTHONHASHSEED="0", PYTHONDONTWRITEBYTECODE="1")
+    p = subprocess.run([sys.executable, "-m", "hv.checks.c18", "child", "saved"], cwd=VERIF, env=env, capture_output=True, text=True, timeout=timeout)
+    if p.returncode != 0:
+        raise RuntimeError("child failed (%r): %s" % (extra_env, p.stderr[-1500:]))
+    return json.loads(p.stdout)
+
+
 def child_main(argv):
+    if argv and argv[0] == "saved":
+        return saved_files_main()
     seed, n, mode = int(argv[0]), int(argv[1]), argv[2]
     from ..loader import ht
     from .. import gen
@@ -410,6 +471,21 @@ def run(ctx):
                 else "output-depends-on-hash-seed"
             ctx.violation(key, "battery item %d (%s) gave %d different results across processes/orders" % (i, kind, len(seen)),
                           {"item": i, "kind": kind, "recipe": recipe, "groups": [g[:4] for g in groups]})
+    # the files save_html() writes, in processes whose default text encoding differs: same bytes (UTF-8, as the document says)
+    envs = [(label, spawn_saved(e)) for label, e in ENVIRONMENTS]
+    ctx.notes["default_encodings_observed"] = sorted({r_["preferred_encoding"] for _, r_ in envs})
+    ref_label, ref_env = envs[0]
+    for label, r_ in envs:
+        for k_, v_ in r_.items():
+            if k_ == "preferred_encoding":
+                continue
+            ctx.count("monitor.saved_file_comparisons")
+            if v_ != ref_env[k_] or "raised" in v_ or not v_.get("utf8") or not v_.get("returned_path"):
+                ctx.violation("saved-file-depends-on-locale", "save_html() of %s under '%s' (default encoding %s) gives %r; under '%s' it gives %r"
+                              % (k_, label, r_["preferred_encoding"], v_, ref_label, ref_env[k_]), {"item": k_, "environment": label, "encoding": r_["preferred_encoding"]})
+                break
+    if len(ctx.notes["default_encodings_observed"]) < 2:
+        ctx.count("environment_battery_saw_one_encoding_only")
     # a sample of items alone in fresh processes
     rng = random.Random(ctx.seed)
     sample = rng.sample(range(n), 6 if not ctx.thorough else 40)
